@@ -10,7 +10,7 @@ from .e2 import Prog
 NO_CAPTURE_OPS = ("..", ">.", "=>[]", "<->", "|n>", "^^>")
 
 
-def capturize(row, site, which=None, valueonly=False):
+def capturize(row, site, which=None, valueonly=False, label=None):
     """every expression operand of the row (or only operand `which`) becomes a block capture logging `c.<site>.<operand index>`"""
     # an untyped `|_|` inspect closure cannot be hoisted: its higher-ranked signature is only inferred at the call
     # site of the sync inspect helper (Rust closure inference, DESIGN §3.3/§3.16)
@@ -23,7 +23,7 @@ def capturize(row, site, which=None, valueonly=False):
                 # a block WITHOUT statements whose value is a call with a visible evaluation: `{ lg(site, operand) }`
                 ops.append(B('lg("c.%s.%d", %s)' % (site, i, t)))
             else:
-                ops.append(B('ev0("c.%s.%d"); %s' % (site, i, t)))
+                ops.append(B('ev0("c.%s.%d"); %s' % (site, i, t), label=label))
         else:
             ops.append(O(t))
     return Op(row.op, ops), (len(ops) if which is None else 1)
@@ -78,7 +78,7 @@ def chain_programs(tier):
             labels = "-".join(r.label for r in chain)
             # `~` placements: none / before the last operator / before every operator
             two = any(len(r.operands) == 2 and r.op in ("^@", "?^@") for r in chain)
-            for dmode in (0, 1, 2, 3, 4, 5):
+            for dmode in (0, 1, 2, 3, 4, 5, 6):
                 if dmode == 2 and len(chain) < 2:
                     continue
                 if dmode in (3, 4) and not two:
@@ -87,15 +87,16 @@ def chain_programs(tier):
                 # through the logging call
                 if dmode == 5 and any(re.search(r"\|\s*[a-z_][a-z0-9_]*\s*(,\s*[a-z_][a-z0-9_]*\s*)*\|", t) for r_ in chain for t in r_.operands):
                     continue
+                # 6: like 1, but every capture is a LABELLED block `'q: { .. }` (two-branch layout only)
                 which = None if dmode not in (3, 4) else dmode - 3
                 items = []
                 ncap = 0
                 step = 0
                 for i, row in enumerate(chain):
-                    deferred = (dmode in (1, 5) and i == len(chain) - 1) or dmode == 2
+                    deferred = (dmode in (1, 5, 6) and i == len(chain) - 1) or dmode == 2
                     if deferred:
                         step += 1
-                    it, n = capturize(row, "%d.0.%d" % (step, i + 1), which if len(row.operands) == 2 else None, valueonly=(dmode == 5))
+                    it, n = capturize(row, "%d.0.%d" % (step, i + 1), which if len(row.operands) == 2 else None, valueonly=(dmode == 5), label=("'q" if dmode == 6 else None))
                     ncap += n
                     ops_seen.add(row.op)
                     it.deferred = deferred
@@ -108,9 +109,9 @@ def chain_programs(tier):
                 elif dmode == 5:
                     x = Branch(B('lg("c.0.0.0.0", %s)' % init), items)
                 else:
-                    x = Branch(B('ev0("c.0.0.0.0"); %s' % init), items)
+                    x = Branch(B('ev0("c.0.0.0.0"); %s' % init, label=("'q" if dmode == 6 else None)), items)
                 for layout in ("2", "3"):
-                    if layout == "3" and tier == "quick" and dmode == 2:
+                    if layout == "3" and (dmode == 6 or tier == "quick" and dmode == 2):
                         continue
                     brs = [x, heavy(1, "H1")] if layout == "2" else [x, heavy(1, "H1"), heavy_b(2, "H2")]
                     p = Program("join", brs)
